@@ -1,27 +1,10 @@
 ------------------------------- MODULE LoDSMMC -------------------------------
 (* Exhaustive exploration of the ListOfDicts session machine to a small depth. *)
-EXTENDS LoDSM, TLC
+EXTENDS LoDSMEvents, TLC
 CONSTANTS MaxLists, MaxItems
 VARIABLES st
-It(a, b) == [k \in {"a", "b"} |-> IF k = "a" THEN a ELSE b]
-Init == st = [items |-> <<It(0, None), It(1, 1), [a |-> 0]>>,
-              lists |-> <<NewList(<<1, 2, 3>>, {}, {})>>]
-Preds == {[f |-> "a_eq", v |-> 0], [f |-> "b_notnone"]}
-Fns == {[f |-> "const", v |-> 1], [f |-> "from", k |-> "a"]}
-UnaryArgs ==
-       {[op |-> "filter", p |-> p] : p \in Preds} \cup {[op |-> "filter_out", p |-> p] : p \in Preds}
-  \cup {[op |-> "sort", keys |-> <<"a">>, dirs |-> <<-1>>], [op |-> "unique", keys |-> <<"a">>],
-        [op |-> "head", n |-> 1], [op |-> "tail", n |-> 2], [op |-> "reverse"], [op |-> "copy"], [op |-> "mul", n |-> 2],
-        [op |-> "slice", lo |-> 1, hi |-> Unset, step |-> 1], [op |-> "drop_na", keys |-> <<"b">>],
-        [op |-> "append", item |-> It(1, 0)], [op |-> "insert", i |-> 0, item |-> It(None, 0)],
-        [op |-> "deepcopy"], [op |-> "fill_all"], [op |-> "fill", kv |-> <<<<"b", 0>>>>],
-        [op |-> "select", keys |-> <<"a">>], [op |-> "unselect", keys |-> <<"b">>],
-        [op |-> "rename", pairs |-> <<<<"x", "b">>>>]}
-  \cup {[op |-> "modify", k |-> k, g |-> g] : k \in {"b", "x"}, g \in Fns}
-  \cup {[op |-> "modify_if", p |-> p, k |-> "b", g |-> g] : p \in Preds, g \in Fns}
-BinaryArgs == {[op |-> o] : o \in {"extend", "add", "semi", "anti", "inner", "left"}}
-Events == {[x |-> x, o |-> 0, a |-> a] : x \in DOMAIN st.lists, a \in UnaryArgs}
-     \cup {[x |-> x, o |-> o, a |-> a] : x \in DOMAIN st.lists, o \in DOMAIN st.lists, a \in BinaryArgs}
+Init == st = InitSt
+Events == EventsOf(st)
 Next == /\ Len(st.lists) < MaxLists /\ Len(st.items) <= MaxItems
         /\ \E e \in Events : EventOK(st, e) /\ st' = Step(st, e)
 Spec == Init /\ [][Next]_st
